@@ -424,6 +424,7 @@ func runC08(w *World, r *Report) {
 	r.Extra["dag_methods_taking_graph_lock"] = len(takers)
 
 	r.rule("drain", "after a successful call of a lock-holding stream every path to a function exit (or back to the call) crosses the exhausted edge of a receive on the data channel, directly or in a helper that drains it", 3)
+	r.rule("stream-consumed-only-when-started", "where a function tests the error of a lock-holding stream call, every receive on the stream's data channel lies behind the err == nil edge (on the failure path the channel is nil: a receive on it never returns)", 3)
 	r.rule("no-send-on-stop", "no send on the stop channel of a stream whose producer closes it (send after close panics; a send does not release a parked producer)", 0)
 	r.rule("reentry-under-ledger-lock", "a consumption region that re-enters the graph lock holds the ledger lock, so no graph writer can queue between producer and consumer", 3)
 	r.rule("graph-writers-under-ledger-lock", "every call that takes the graph lock exclusively holds AccountingBook.mux exclusively", 6)
@@ -444,6 +445,29 @@ func runC08(w *World, r *Report) {
 			if data == nil {
 				r.bad("drain", site, lineOf(w, c), "the data channel of a lock-holding stream must be consumed", "result discarded: producer parks for ever with the lock held")
 				continue
+			}
+			// a stream that failed to start hands back a nil channel: a receive on it (range, <-, select arm) never returns —
+			// receives lie behind the success edge of the call
+			// (a contradiction rule: it applies where the function itself tests the error, i.e. believes the call can fail;
+			// validateLeaf discards it after IsRoot has answered for the same id under the same lock)
+			if okE := passErrNil(c); errResult(c) != nil && len(okE) > 0 {
+				instrsOf(fn, func(in ssa.Instruction) {
+					isRecv := false
+					switch x := in.(type) {
+					case *ssa.UnOp:
+						isRecv = x.Op == token.ARROW && sameVal(x.X, data)
+					case *ssa.Select:
+						for _, sst := range x.States {
+							if sst.Dir == types.RecvOnly && sameVal(sst.Chan, data) {
+								isRecv = true
+							}
+						}
+					}
+					if isRecv {
+						r.check(len(okE) > 0 && behind(in, okE), "stream-consumed-only-when-started", site+"/receive", lineOf(w, in), "the receive lies behind the stream call's err == nil edge",
+							"the receive is reachable from the failure edge of "+shortCallee(c)+": the channel is nil there and the receive blocks for ever (with the locks the caller holds)")
+					}
+				})
 			}
 			// the channel must not flow anywhere we do not follow
 			var checkUses func(v ssa.Value)
